@@ -87,7 +87,25 @@ struct Counters {
     index_triples_compared: u64,
 }
 
-fn run_case(case: &Case, only: Option<&At>, viols: &mut Vec<Violation>) -> Counters {
+/// A violation found inside a case; the (expensive) case JSON is attached by `to_violation`.
+struct Found {
+    sig: String,
+    what: String,
+    at: At,
+}
+
+fn to_violation(case: &Case, f: Found, with_case: bool) -> Violation {
+    let cj = if with_case {
+        let mut v = serde_json::to_value(case).unwrap();
+        v.as_object_mut().unwrap().insert("at".into(), serde_json::to_value(&f.at).unwrap());
+        v
+    } else {
+        Value::Null
+    };
+    Violation::new(f.sig, f.what, cj)
+}
+
+fn run_case(case: &Case, only: Option<&At>, viols: &mut Vec<Found>) -> Counters {
     match (case.float.as_str(), case.metric.as_str()) {
         ("f64", "L1") => run_typed::<f64, _>(case, L1Dist, only, viols),
         ("f64", "L2") => run_typed::<f64, _>(case, L2Dist, only, viols),
@@ -137,7 +155,7 @@ fn tolerances(dist: &[Vec<f64>], tol: f64) -> Vec<(f64, &'static str)> {
     out
 }
 
-fn run_typed<F: Float, D: Distance<F> + 'static>(case: &Case, dist_fn: D, only: Option<&At>, viols: &mut Vec<Violation>) -> Counters {
+fn run_typed<F: Float, D: Distance<F> + 'static>(case: &Case, dist_fn: D, only: Option<&At>, viols: &mut Vec<Found>) -> Counters {
     let mut cnt = Counters::default();
     let n = case.points.len();
     let d = case.dim;
@@ -164,11 +182,6 @@ fn run_typed<F: Float, D: Distance<F> + 'static>(case: &Case, dist_fn: D, only: 
             _ => false,
         }
     };
-    let cj = |at: &At| -> Value {
-        let mut v = serde_json::to_value(case).unwrap();
-        v.as_object_mut().unwrap().insert("at".into(), serde_json::to_value(at).unwrap());
-        v
-    };
     let wanted = |at: &At| -> bool {
         match only {
             None => true,
@@ -190,6 +203,7 @@ fn run_typed<F: Float, D: Distance<F> + 'static>(case: &Case, dist_fn: D, only: 
             let eps_json = if eps_opt.is_some() { Some(eps64) } else { None };
             let band = tol * scale.max(if eps64.is_finite() { eps64 } else { 1.0 });
             let model: RefModel = reference::build(&dist, eps64, mp, band, &exact);
+            let st = reference::dbscan_stats(&model);
             let on_radius = eps64.is_finite() && (0..n).any(|i| (0..n).any(|j| i != j && dist[i][j] == eps64));
 
             for algo in ["dbscan", "optics"] {
@@ -289,7 +303,6 @@ fn run_typed<F: Float, D: Distance<F> + 'static>(case: &Case, dist_fn: D, only: 
                             }
                         }
                         if algo == "dbscan" {
-                            let st = reference::dbscan_stats(&model);
                             let all_core_one = st.clusters == 1 && model.core.iter().all(|&c| c);
                             if st.clusters >= 1 && !all_core_one {
                                 cnt.nontrivial += 1;
@@ -311,7 +324,7 @@ fn run_typed<F: Float, D: Distance<F> + 'static>(case: &Case, dist_fn: D, only: 
                         }
                     }
                     for (sig, what) in found {
-                        viols.push(Violation::new(sig, format!("[{} {} {} {} n={} min_points={} tolerance={} ({})] {}", algo, kname, case.metric, case.float, n, mp, eps64, eps_class, what), cj(&at)));
+                        viols.push(Found { sig, what: format!("[{} {} {} {} n={} min_points={} tolerance={} ({})] {}", algo, kname, case.metric, case.float, n, mp, eps64, eps_class, what), at: at.clone() });
                     }
                 }
                 // ---- independence of the neighbour index: bit-identical outputs ----
@@ -319,14 +332,14 @@ fn run_typed<F: Float, D: Distance<F> + 'static>(case: &Case, dist_fn: D, only: 
                     if algo == "dbscan" && db_out.len() == 3 {
                         cnt.index_triples_compared += 1;
                         if !(db_out[0].1 == db_out[1].1 && db_out[1].1 == db_out[2].1) {
-                            viols.push(Violation::new(
-                                "dbscan.index_dependence",
-                                format!(
+                            viols.push(Found {
+                                sig: "dbscan.index_dependence".into(),
+                                what: format!(
                                     "[dbscan {} {} n={} min_points={} tolerance={} ({})] labelling depends on the neighbour index: linear {:?} kdtree {:?} balltree {:?}",
                                     case.metric, case.float, n, mp, eps64, eps_class, db_out[0].1, db_out[1].1, db_out[2].1
                                 ),
-                                cj(&at_all),
-                            ));
+                                at: at_all.clone(),
+                            });
                         }
                     }
                     if algo == "optics" && op_out.len() == 3 {
@@ -335,14 +348,14 @@ fn run_typed<F: Float, D: Distance<F> + 'static>(case: &Case, dist_fn: D, only: 
                         let (l, k, b) = (bits(&op_out[0].1), bits(&op_out[1].1), bits(&op_out[2].1));
                         if !(l == k && k == b) {
                             let sig = if k == b && linear_unsorted { "optics.index_dependence.linear_unsorted_core_distance" } else { "optics.index_dependence" };
-                            viols.push(Violation::new(
-                                sig,
-                                format!(
+                            viols.push(Found {
+                                sig: sig.into(),
+                                what: format!(
                                     "[optics {} {} n={} min_points={} tolerance={} ({})] analysis depends on the neighbour index: linear {:?} kdtree {:?} balltree {:?}",
                                     case.metric, case.float, n, mp, eps64, eps_class, op_out[0].1, op_out[1].1, op_out[2].1
                                 ),
-                                cj(&at_all),
-                            ));
+                                at: at_all.clone(),
+                            });
                         }
                     }
                 }
@@ -365,9 +378,9 @@ fn replay_value(v: &Value) -> Vec<Violation> {
     run_case(&c, at.as_ref(), &mut out);
     if let Some(at) = at {
         // keep the violations that belong to the recorded run
-        out.retain(|x| x.case.get("at").and_then(|a| serde_json::from_value::<At>(a.clone()).ok()).map_or(false, |a| a.same_run(&at)));
+        out.retain(|x| x.at.same_run(&at));
     }
-    out
+    out.into_iter().map(|f| to_violation(&c, f, true)).collect()
 }
 
 fn ints(p: &[i64]) -> Vec<f64> {
@@ -379,10 +392,10 @@ fn main() {
     ctx.maybe_replay(&replay_value);
     ctx.set_rule(
         "cases = (point set in a fixed row order, float type, metric); families: every sequence (= every row order of every multiset) of <=5 (quick) / <=6 (thorough) \
-         values of {0..5} in 1-D, every multiset of 6 (quick) / 6..8 (thorough) values of {0..5} in sorted order, every subset of <=5 / <=6 points of the 3x3 lattice in \
+         values of {0..5} in 1-D (thorough: also every sequence of 7 values of {0..4}, L2 only), every multiset of 6 (quick) / 6..8 (thorough) values of {0..5} in sorted order, every subset of <=5 / <=6 points of the 3x3 lattice in \
          lexicographic order and its generic-position image (constant jitter table), every ordered selection of <=4 / <=5 lattice points (row orders), every multiset of <=5 points \
-         of the 2x2 lattice with duplicates, every subset of <=4 / <=5 corners of the unit cube (3-D), the 5x4 lattice and the 1-D line {0..19} with <=2 / <=3 points removed \
-         (n = 17..20 > default leaf size 16, so the k-d tree and the ball tree really branch), zero-feature matrices with 0..5 rows, empty matrices; \
+         of the 2x2 lattice with duplicates, every subset of <=4 / <=5 corners of the unit cube (3-D), the 5x4 lattice and the 1-D line {0..19} with <=1 / <=3 points removed \
+         (n = 17..20 > default leaf size 16, so the k-d tree and the ball tree really branch), two 1-D blobs with a bridge position (0..3 / 0..4 copies at each of 5 positions, three row orders; L2 only), zero-feature matrices with 0..5 rows, empty matrices; \
          per case: min_points 2..4 (2..5 for the large families), tolerances of class A (below the smallest positive inter-point distance, every midpoint between consecutive \
          distinct distances, above the largest) and class B (exactly every distinct inter-point distance), the three neighbour indices, DBSCAN and OPTICS, OPTICS also with its default \
          infinite tolerance. evaluation = one transform call; non-trivial = DBSCAN run whose reference clustering has a core point and is not 'all points core in one cluster', \
@@ -396,26 +409,45 @@ fn main() {
     ctx.assume("min_points >= 2 and tolerance > 0 only (the parameter guards are C04's subject); finite coordinates; standard-layout (contiguous) matrices as the k-d tree documents");
 
     // ---------------- enumerate cases ----------------
-    // (family, points, dim, integer coordinates, float types, min_points list)
-    let mut sets: Vec<(String, Vec<Vec<f64>>, usize, bool, Vec<&'static str>, Vec<usize>)> = Vec::new();
-    let both = vec!["f64", "f32"];
-    let f64only = vec!["f64"];
-    let mp_small = vec![2usize, 3, 4];
-    let mp_large = vec![2usize, 3, 4, 5];
+    struct PointSet {
+        family: &'static str,
+        points: Vec<Vec<f64>>,
+        dim: usize,
+        integer: bool,
+        floats: &'static [&'static str],
+        metrics: &'static [&'static str],
+        min_points: &'static [usize],
+    }
+    const BOTH: &[&str] = &["f64", "f32"];
+    const F64: &[&str] = &["f64"];
+    const ALL_METRICS: &[&str] = &["L1", "L2", "Linf"];
+    const L2_ONLY: &[&str] = &["L2"];
+    const MP_SMALL: &[usize] = &[2, 3, 4];
+    const MP_LARGE: &[usize] = &[2, 3, 4, 5];
+    let mut sets: Vec<PointSet> = Vec::new();
+    let mut add = |family: &'static str, points: Vec<Vec<f64>>, dim: usize, integer: bool, floats: &'static [&'static str], metrics: &'static [&'static str], min_points: &'static [usize]| {
+        sets.push(PointSet { family, points, dim, integer, floats, metrics, min_points });
+    };
     // A: 1-D, every row order of every multiset (chains, duplicates, isolated noise)
     for s in en::sequences_upto(ctx.pick(5, 6), 6) {
-        sets.push(("1d_sequence".into(), s.iter().map(|&i| vec![i as f64]).collect(), 1, true, f64only.clone(), mp_small.clone()));
+        add("1d_sequence", s.iter().map(|&i| vec![i as f64]).collect(), 1, true, F64, ALL_METRICS, MP_SMALL);
+    }
+    if ctx.thorough() {
+        // one point more over the alphabet {0..4}; in 1-D the three metrics coincide, L2 only
+        for s in en::sequences(7, 5) {
+            add("1d_sequence7", s.iter().map(|&i| vec![i as f64]).collect(), 1, true, F64, L2_ONLY, MP_SMALL);
+        }
     }
     // A': larger 1-D multisets in sorted order, both float types
     for ms in en::multisets_upto(6, 6, ctx.pick(6, 8), 8) {
-        sets.push(("1d_multiset".into(), ms.iter().map(|&i| vec![i as f64]).collect(), 1, true, both.clone(), mp_small.clone()));
+        add("1d_multiset", ms.iter().map(|&i| vec![i as f64]).collect(), 1, true, BOTH, ALL_METRICS, MP_SMALL);
     }
     // B: 3x3 lattice subsets (rings, touching clusters) + generic-position images
     let lat = en::lattice_points(2, 3);
     for ss in en::subsets_upto(9, 1, ctx.pick(5, 6)) {
-        sets.push(("lattice3x3".into(), ss.iter().map(|&i| ints(&lat[i])).collect(), 2, true, both.clone(), mp_small.clone()));
+        add("lattice3x3", ss.iter().map(|&i| ints(&lat[i])).collect(), 2, true, BOTH, ALL_METRICS, MP_SMALL);
         let g: Vec<Vec<f64>> = ss.iter().map(|&i| lat[i].iter().enumerate().map(|(j, &v)| v as f64 + en::jitter(i, j)).collect()).collect();
-        sets.push(("lattice3x3_generic".into(), g, 2, false, f64only.clone(), mp_small.clone()));
+        add("lattice3x3_generic", g, 2, false, F64, ALL_METRICS, MP_SMALL);
     }
     // B': row orders of lattice point sets
     for k in 2..=ctx.pick(4, 5) {
@@ -423,18 +455,18 @@ fn main() {
             if a.windows(2).all(|w| w[0] < w[1]) {
                 continue; // the sorted order is already in family B
             }
-            sets.push(("lattice3x3_order".into(), a.iter().map(|&i| ints(&lat[i])).collect(), 2, true, f64only.clone(), mp_small.clone()));
+            add("lattice3x3_order", a.iter().map(|&i| ints(&lat[i])).collect(), 2, true, F64, ALL_METRICS, MP_SMALL);
         }
     }
     // C: 2-D duplicates
     let lat2 = en::lattice_points(2, 2);
     for ms in en::multisets_upto(4, 1, 5, 3) {
-        sets.push(("lattice2x2_multiset".into(), ms.iter().map(|&i| ints(&lat2[i])).collect(), 2, true, both.clone(), mp_small.clone()));
+        add("lattice2x2_multiset", ms.iter().map(|&i| ints(&lat2[i])).collect(), 2, true, BOTH, ALL_METRICS, MP_SMALL);
     }
     // D: 3-D
     let cube = en::lattice_points(3, 2);
     for ss in en::subsets_upto(8, 1, ctx.pick(4, 5)) {
-        sets.push(("cube2x2x2".into(), ss.iter().map(|&i| ints(&cube[i])).collect(), 3, true, f64only.clone(), mp_small.clone()));
+        add("cube2x2x2", ss.iter().map(|&i| ints(&cube[i])).collect(), 3, true, F64, ALL_METRICS, MP_SMALL);
     }
     // E: more points than the default leaf size (16): the trees branch
     let big = {
@@ -446,28 +478,46 @@ fn main() {
         }
         v
     };
-    let holes = ctx.pick(2, 3);
-    for removed in en::subsets_upto(20, 0, holes) {
+    for removed in en::subsets_upto(20, 0, ctx.pick(1, 3)) {
         let keep: Vec<usize> = (0..20).filter(|i| !removed.contains(i)).collect();
-        sets.push(("lattice5x4_minus".into(), keep.iter().map(|&i| big[i].clone()).collect(), 2, true, f64only.clone(), mp_large.clone()));
-        sets.push(("line20_minus".into(), keep.iter().map(|&i| vec![i as f64]).collect(), 1, true, f64only.clone(), mp_large.clone()));
+        add("lattice5x4_minus", keep.iter().map(|&i| big[i].clone()).collect(), 2, true, F64, ALL_METRICS, MP_LARGE);
+        add("line20_minus", keep.iter().map(|&i| vec![i as f64]).collect(), 1, true, F64, ALL_METRICS, MP_LARGE);
+    }
+    // E': two 1-D blobs and a bridge position between them (touching clusters: the bridge is a border
+    // point of both, or a core point that merges them): multiplicities at the positions 0,1 | 2 | 3,4,
+    // in three row orders (sorted, bridge rows first, reversed)
+    for mult in en::grid(&[ctx.pick(4, 5); 5]) {
+        let sorted: Vec<Vec<f64>> = (0..5).flat_map(|pos| std::iter::repeat(vec![pos as f64]).take(mult[pos])).collect();
+        if sorted.len() < 3 {
+            continue;
+        }
+        let mut bridge_first: Vec<Vec<f64>> = sorted.iter().filter(|p| p[0] == 2.0).cloned().collect();
+        bridge_first.extend(sorted.iter().filter(|p| p[0] != 2.0).cloned());
+        let mut reversed = sorted.clone();
+        reversed.reverse();
+        add("1d_bridge", sorted.clone(), 1, true, F64, L2_ONLY, MP_LARGE);
+        if bridge_first != sorted {
+            add("1d_bridge", bridge_first, 1, true, F64, L2_ONLY, MP_LARGE);
+        }
+        if reversed != sorted {
+            add("1d_bridge", reversed, 1, true, F64, L2_ONLY, MP_LARGE);
+        }
     }
     // F: zero features, empty matrices
     for n in 0..=5usize {
-        sets.push(("zero_features".into(), vec![vec![]; n], 0, true, both.clone(), mp_small.clone()));
+        add("zero_features", vec![vec![]; n], 0, true, BOTH, ALL_METRICS, MP_SMALL);
     }
     for d in 1..=3usize {
-        sets.push(("empty".into(), vec![], d, true, both.clone(), mp_small.clone()));
+        add("empty", vec![], d, true, BOTH, ALL_METRICS, MP_SMALL);
     }
 
-    let metrics = ["L1", "L2", "Linf"];
     let mut cases: Vec<Case> = Vec::new();
     let mut per_family: std::collections::BTreeMap<String, u64> = Default::default();
-    for (fam, pts, d, integer, floats, mps) in &sets {
-        for f in floats {
-            for m in metrics {
-                *per_family.entry(fam.clone()).or_default() += 1;
-                cases.push(Case { family: fam.clone(), points: pts.clone(), dim: *d, float: (*f).into(), metric: m.into(), integer_coords: *integer, min_points: mps.clone() });
+    for ps in &sets {
+        for f in ps.floats {
+            for m in ps.metrics {
+                *per_family.entry(ps.family.to_string()).or_default() += 1;
+                cases.push(Case { family: ps.family.into(), points: ps.points.clone(), dim: ps.dim, float: (*f).into(), metric: (*m).into(), integer_coords: ps.integer, min_points: ps.min_points.to_vec() });
             }
         }
     }
@@ -477,6 +527,11 @@ fn main() {
 
     let done = AtomicU64::new(0);
     let total = std::sync::Mutex::new(Counters::default());
+    // The case JSON is attached to the first FULL_PER_SIG violations of every signature only (the
+    // driver keeps 3 per signature); counting and delivery happen under one lock, so the ones the
+    // driver keeps are always complete.
+    const FULL_PER_SIG: u64 = 16;
+    let delivered: std::sync::Mutex<std::collections::HashMap<String, u64>> = Default::default();
     par_sweep(&ctx, "density clustering sweep", &cases, |c| {
         let mut v = Vec::new();
         let cnt = run_case(c, None, &mut v);
@@ -484,7 +539,15 @@ fn main() {
         for _ in 0..cnt.indeterminate {
             ctx.indeterminate();
         }
-        ctx.violations(v);
+        if !v.is_empty() {
+            let mut seen = delivered.lock().unwrap();
+            for f in v {
+                let k = seen.entry(f.sig.clone()).or_insert(0);
+                *k += 1;
+                let full = *k <= FULL_PER_SIG;
+                ctx.violation(to_violation(c, f, full));
+            }
+        }
         {
             let mut t = total.lock().unwrap();
             t.dbscan_runs += cnt.dbscan_runs;
